@@ -119,17 +119,39 @@ class Interp:
         module = qual.split(".")[0]
         c = ClassVal(qual, module, node)
         self.classes[qual] = c
+        c.ntuple = None
         for b in node.bases:
             if isinstance(b, ast.Name) and b.id != "object":
                 r = self.src.resolve(module, b.id)
                 if r and r[0] == "class":
                     c.bases.append(self.get_class(r[1]))
+                elif r and r[0] == "external" and r[1].split(".")[-1] == "NamedTuple":
+                    c.ntuple = True
+            elif isinstance(b, ast.Attribute):
+                try:
+                    bv = self.eval(b, Frame(self, module, module))
+                except (AnalysisError, SymRaise):
+                    bv = None
+                if isinstance(bv, ClassVal):
+                    c.bases.append(bv)
+                elif ast.unparse(b).split(".")[-1] == "NamedTuple":
+                    c.ntuple = True
         frame = Frame(self, module, qual, None, cls=c)
+        if c.ntuple:
+            fields, defaults = [], []
+            for st in node.body:
+                if isinstance(st, ast.AnnAssign) and isinstance(st.target, ast.Name):
+                    fields.append(st.target.id)
+                    if st.value is not None:
+                        defaults.append(self.eval(st.value, frame))
+                    elif defaults:
+                        raise AnalysisError(f"NamedTuple {qual}: field without default after one with default")
+            c.ntuple = self.lib.NTupleClass(c.name, fields, defaults)
         for st in node.body:
             if isinstance(st, ast.FunctionDef):
                 fn = Closure(st, module, f"{qual}.{st.name}", None, cls=c)
                 decos = [ast.unparse(d) for d in st.decorator_list]
-                if "property" in decos:
+                if "property" in decos or any(d.split(".")[-1] == "cached_property" for d in decos):
                     c.attrs[st.name] = PropertyVal(fn)
                 elif any(d.endswith(".setter") for d in decos):
                     p = c.attrs.get(st.name)
@@ -151,11 +173,20 @@ class Interp:
                     if isinstance(t, ast.Name):
                         frame.vars[t.id] = v
                         c.attrs[t.id] = v
+            elif isinstance(st, ast.AnnAssign) and st.value is not None and isinstance(st.target, ast.Name) and not c.ntuple:
+                try:
+                    v = self.eval(st.value, frame)
+                except (AnalysisError, SymRaise):
+                    v = self.new_obj(f"{qual}.<classattr>")
+                frame.vars[st.target.id] = v
+                c.attrs[st.target.id] = v
             elif isinstance(st, ast.Expr):
                 continue
         return c
 
     def instantiate(self, cls: ClassVal, args, kwargs, name=None, open_attrs=None, sym_kw=None):
+        if getattr(cls, "ntuple", None):
+            return cls.ntuple.make(list(args), dict(kwargs))
         if open_attrs is None:
             # data attributes that table loaders fill in: readable as fresh symbols on any atom
             open_attrs = self.default_open.get(cls.qual, frozenset())
@@ -206,6 +237,10 @@ class Interp:
             raise SymRaise("AttributeError", f"{obj!r} has no attribute {name}")
         if isinstance(obj, ClassVal):
             v = obj.lookup(name)
+            if v is _MISSING and name in ("__name__", "__qualname__"):
+                return obj.name
+            if v is _MISSING and name == "__module__":
+                return "periodictable." + obj.module
             if v is _MISSING:
                 raise SymRaise("AttributeError", f"{obj!r}.{name}")
             if isinstance(v, tuple) and v[0] == "static":
@@ -698,8 +733,51 @@ class Interp:
         if isinstance(st, ast.Global):
             frame.globals.update(st.names)
             return True
+        if hasattr(ast, "Match") and isinstance(st, ast.Match):
+            return self.exec_match(st, frame, pc)
         raise AnalysisError(f"statement form {st.__class__.__name__} not modelled "
                             f"({frame.qual}:{getattr(st, 'lineno', '?')})")
+
+    def exec_match(self, st, frame, pc):
+        """match/case over a value whose comparisons with the patterns are decided (literals, captures, sequences, or-patterns)"""
+        subject = self.eval(st.subject, frame)
+
+        def matches(pat, val, binds):
+            if isinstance(pat, ast.MatchValue):
+                r = self.lib.compare(self, ast.Eq(), val, self.eval(pat.value, frame))
+                if r is True or r is False:
+                    return r
+                raise AnalysisError(f"match on a value whose comparison with a pattern is symbolic ({frame.qual})")
+            if isinstance(pat, ast.MatchSingleton):
+                return val is pat.value
+            if isinstance(pat, ast.MatchAs):
+                if pat.pattern is not None and not matches(pat.pattern, val, binds):
+                    return False
+                if pat.name is not None:
+                    binds[pat.name] = val
+                return True
+            if isinstance(pat, ast.MatchOr):
+                return any(matches(p, val, binds) for p in pat.patterns)
+            if isinstance(pat, ast.MatchSequence):
+                if not isinstance(val, (list, tuple)) or any(isinstance(p, ast.MatchStar) for p in pat.patterns):
+                    if not isinstance(val, (list, tuple)):
+                        return False
+                    raise AnalysisError("match with a star pattern is not modelled")
+                return len(val) == len(pat.patterns) and all(matches(p, v, binds) for p, v in zip(pat.patterns, val))
+            raise AnalysisError(f"match pattern {pat.__class__.__name__} not modelled ({frame.qual})")
+        for case in st.cases:
+            binds = {}
+            if matches(case.pattern, subject, binds):
+                for k, v in binds.items():
+                    frame.vars[k] = v
+                if case.guard is not None:
+                    g = self.truth(self.eval(case.guard, frame))
+                    if g is sp.false:
+                        continue
+                    if g is not sp.true:
+                        raise AnalysisError(f"match guard with a symbolic condition ({frame.qual})")
+                return self.exec_block(case.body, frame, pc)
+        return True
 
     def exec_import(self, st, frame):
         if isinstance(st, ast.ImportFrom):
@@ -1040,7 +1118,16 @@ class Interp:
         return set(self._elts(n.elts, f))
 
     def e_Dict(self, n, f):
-        return {self.eval(k, f): self.eval(v, f) for k, v in zip(n.keys, n.values)}
+        out = {}
+        for k, v in zip(n.keys, n.values):
+            if k is None:                      # {**other}
+                d = self.eval(v, f)
+                if not isinstance(d, dict):
+                    raise AnalysisError("** of non-dict in a dict display")
+                out.update(d)
+            else:
+                out[self.eval(k, f)] = self.eval(v, f)
+        return out
 
     def e_Lambda(self, n, f):
         return Closure(n, f.module, f"{f.qual}.<lambda@{n.lineno}>", f)
